@@ -49,6 +49,7 @@ type childResult struct {
 	Results  []string `json:"results"`
 	Released []string `json:"released"`
 	Note     string   `json:"note"`
+	Retries  int      `json:"retries"`
 }
 
 // Serve is the child side: reads one case (JSON) per line, runs it, streams.
@@ -79,7 +80,7 @@ func Serve(in io.Reader, out io.Writer, deadline time.Duration) {
 		}
 		fmt.Fprintf(out, "B\n")
 		o := Run(c, deadline)
-		b, _ := json.Marshal(childResult{o.RunID, o.Hang, o.Stuck, o.Results, o.Released, o.Note})
+		b, _ := json.Marshal(childResult{o.RunID, o.Hang, o.Stuck, o.Results, o.Released, o.Note, o.Retries})
 		fmt.Fprintf(out, "D %s\n", b)
 	}
 }
@@ -179,7 +180,7 @@ func (r *Runner) Run(c Case) Obs {
 		case strings.HasPrefix(line, "D "):
 			var cr childResult
 			_ = json.Unmarshal([]byte(line[2:]), &cr)
-			o.Hang, o.Stuck, o.Results, o.Released, o.Note = cr.Hang, cr.Stuck, cr.Results, cr.Released, cr.Note
+			o.Hang, o.Stuck, o.Results, o.Released, o.Note, o.Retries = cr.Hang, cr.Stuck, cr.Results, cr.Released, cr.Note, cr.Retries
 			keep(cr.RunID)
 			if o.Hang || o.Stuck != "" {
 				// goroutines of this run are still blocked inside the engine: start afresh
